@@ -702,31 +702,119 @@ func ruleCompoundSwitchCoverage(r *Report, rule string) {
 			"CustomScoreQuery":  "outside the documented query family; reported as info in C20",
 		},
 	}
+	// types that turn into a sub-tree when parsed (a Parse() (Query, error) method):
+	// a walker must expand them wherever they occur, not only at the top
+	for _, name := range pk.Types.Scope().Names() {
+		tn, ok := pk.Types.Scope().Lookup(name).(*types.TypeName)
+		if !ok {
+			continue
+		}
+		ms := types.NewMethodSet(types.NewPointer(tn.Type()))
+		for i := 0; i < ms.Len(); i++ {
+			m := ms.At(i).Obj().(*types.Func)
+			sig := m.Type().(*types.Signature)
+			if m.Name() == "Parse" && sig.Params().Len() == 0 && sig.Results().Len() == 2 && types.Identical(sig.Results().At(0).Type(), qIface) {
+				compound = append(compound, name)
+			}
+		}
+	}
+	sort.Strings(compound)
 	for _, fn := range []string{"search/query.expandQuery", "search/query.ExtractFields"} {
 		fi := p.MustFunc(fn)
 		r.Fn(fi)
-		info := fi.Pkg.TypesInfo
-		covered := map[string]bool{}
-		ast.Inspect(fi.Decl.Body, func(n ast.Node) bool {
-			ts, ok := n.(*ast.TypeSwitchStmt)
-			if !ok {
-				return true
+		// the recursive part of the walk: same-package functions reachable from the
+		// walker that lie on a static call cycle.  Only cases handled THERE are seen
+		// for nested occurrences; a helper that holds the switch is followed, and a
+		// case handled only in a non-recursive entry point does not count.
+		byObj := map[types.Object]*FuncInfo{}
+		for _, g := range p.flist {
+			if g.Pkg == fi.Pkg && g.Decl.Body != nil {
+				byObj[g.Obj] = g
 			}
-			for _, c := range ts.Body.List {
-				for _, e := range c.(*ast.CaseClause).List {
-					if nt := namedOf(info.TypeOf(e)); nt != nil {
-						covered[nt.Obj().Name()] = true
+		}
+		succ := func(g *FuncInfo) []*FuncInfo {
+			var out []*FuncInfo
+			ast.Inspect(g.Decl.Body, func(n ast.Node) bool {
+				if c, ok := n.(*ast.CallExpr); ok {
+					if f := callee(g.Pkg.TypesInfo, c); f != nil {
+						if h := byObj[f]; h != nil {
+							out = append(out, h)
+						}
 					}
 				}
+				return true
+			})
+			return out
+		}
+		reachFrom := func(start *FuncInfo) map[*FuncInfo]bool {
+			seen := map[*FuncInfo]bool{}
+			work := succ(start)
+			for len(work) > 0 {
+				g := work[len(work)-1]
+				work = work[:len(work)-1]
+				if seen[g] {
+					continue
+				}
+				seen[g] = true
+				work = append(work, succ(g)...)
 			}
-			return true
-		})
+			return seen
+		}
+		reach := reachFrom(fi)
+		reach[fi] = reach[fi] || false
+		var scope []*FuncInfo
+		for g := range reach {
+			if reachFrom(g)[g] {
+				scope = append(scope, g)
+			}
+		}
+		if reachFrom(fi)[fi] {
+			found := false
+			for _, g := range scope {
+				if g == fi {
+					found = true
+				}
+			}
+			if !found {
+				scope = append(scope, fi)
+			}
+		}
+		if len(scope) == 0 {
+			scope = []*FuncInfo{fi} // recursion through a local closure variable
+		}
+		covered := map[string]bool{}
+		var scopeNames []string
+		for _, g := range scope {
+			scopeNames = append(scopeNames, g.Obj.Name())
+			r.Fn(g)
+			ginfo := g.Pkg.TypesInfo
+			ast.Inspect(g.Decl.Body, func(n ast.Node) bool {
+				switch x := n.(type) {
+				case *ast.TypeSwitchStmt:
+					for _, c := range x.Body.List {
+						for _, e := range c.(*ast.CaseClause).List {
+							if nt := namedOf(ginfo.TypeOf(e)); nt != nil {
+								covered[nt.Obj().Name()] = true
+							}
+						}
+					}
+				case *ast.TypeAssertExpr:
+					if x.Type != nil {
+						if nt := namedOf(ginfo.TypeOf(x.Type)); nt != nil {
+							covered[nt.Obj().Name()] = true
+						}
+					}
+				}
+				return true
+			})
+		}
+		sort.Strings(scopeNames)
 		for _, c := range compound {
 			if why, ok := allow[fn][c]; ok && !covered[c] {
 				r.Allow(rule, fi.Name+"/case-"+c, fi.Decl.Pos(), why)
 				continue
 			}
-			r.Ob(rule, fi.Name+"/case-"+c, fi.Decl.Pos(), covered[c], "compound query type "+c+" is not handled by the type switch in "+fi.Obj.Name()+": its children are skipped")
+			r.Ob(rule, fi.Name+"/case-"+c, fi.Decl.Pos(), covered[c], "query type "+c+" has (or parses into) child queries but is not handled in the recursive part of "+fi.Obj.Name()+" ("+strings.Join(scopeNames, ", ")+"): wherever it occurs below the top level its children are skipped")
 		}
 	}
 }
